@@ -41,12 +41,13 @@ type ProcJob struct {
 }
 
 type Job struct {
-	Root    string    `json:"root"` // cache directory (absolute); only paths below it are traced
-	Procs   []ProcJob `json:"procs"`
-	Seed    uint64    `json:"seed"`
-	Random  bool      `json:"random"`  // randomised token scheduling
-	Barrier bool      `json:"barrier"` // hold everybody until each process has reached its first cache syscall
-	MaxMs   int       `json:"max_ms"`
+	Root      string    `json:"root"` // cache directory (absolute); only paths below it are traced
+	Procs     []ProcJob `json:"procs"`
+	Seed      uint64    `json:"seed"`
+	Random    bool      `json:"random"`  // randomised token scheduling
+	Barrier   bool      `json:"barrier"` // hold everybody until each process has reached its first cache syscall
+	MaxMs     int       `json:"max_ms"`
+	NoSeccomp bool      `json:"no_seccomp"` // stop at every system call instead of using the child's seccomp filter
 }
 
 // Event is one intercepted system call, in effect order.
@@ -376,9 +377,19 @@ func (t *tracer) logEvent(th *thread, ev Event, ret int64) {
 	t.events = append(t.events, ev)
 }
 
+// cont resumes a tracee that is not inside a traced call.  ESRCH: the thread died
+// meanwhile (SIGKILL); its exit is reported by wait4.
 func (t *tracer) cont(tid int, sig int) {
-	// ESRCH: the thread died meanwhile (SIGKILL); its exit is reported by wait4.
-	_ = syscall.PtraceSyscall(tid, sig)
+	if t.job.NoSeccomp {
+		_ = syscall.PtraceSyscall(tid, sig)
+	} else {
+		_ = syscall.PtraceCont(tid, sig)
+	}
+}
+
+// contToExit resumes a tracee at the entry of a traced call and asks for its exit stop.
+func (t *tracer) contToExit(tid int) {
+	_ = syscall.PtraceSyscall(tid, 0)
 }
 
 func (t *tracer) killProc(pr *tproc, pi int, th *thread) {
@@ -425,7 +436,7 @@ func (t *tracer) grant() {
 		if !blockingLock {
 			t.holder = th
 		}
-		t.cont(th.tid, 0)
+		t.contToExit(th.tid)
 	}
 }
 
@@ -493,7 +504,7 @@ func runTrace(job Job) (out TraceOut) {
 		return
 	}
 	pidToProc := map[int]int{}
-	opts := syscall.PTRACE_O_TRACESYSGOOD | syscall.PTRACE_O_TRACECLONE | syscall.PTRACE_O_TRACEFORK | syscall.PTRACE_O_TRACEVFORK | 0x100000 /* EXITKILL */
+	opts := syscall.PTRACE_O_TRACESYSGOOD | syscall.PTRACE_O_TRACECLONE | syscall.PTRACE_O_TRACEFORK | syscall.PTRACE_O_TRACEVFORK | 0x100000 /* EXITKILL */ | 0x80 /* TRACESECCOMP */
 	for i, pj := range job.Procs {
 		specJSON, _ := json.Marshal(pj.Spec)
 		r, w, err := os.Pipe()
@@ -502,7 +513,7 @@ func runTrace(job Job) (out TraceOut) {
 			return
 		}
 		pid, err := syscall.ForkExec(self, []string{self, "child", string(specJSON)}, &syscall.ProcAttr{
-			Env:   append(os.Environ(), "GOMAXPROCS=2"),
+			Env:   append(os.Environ(), "GOMAXPROCS=2", map[bool]string{false: "C16_SECCOMP=1", true: "C16_SECCOMP=0"}[job.NoSeccomp]),
 			Files: []uintptr{0, w.Fd(), 2},
 			Sys:   &syscall.SysProcAttr{Ptrace: true},
 		})
@@ -634,7 +645,7 @@ func runTrace(job Job) (out TraceOut) {
 					break
 				}
 				switch info[0] {
-				case 1: // entry
+				case 1, 3: // entry (3: reported as a seccomp stop)
 					var args [6]uint64
 					for i := range args {
 						args[i] = le64(info[32+8*i:])
@@ -647,6 +658,17 @@ func runTrace(job Job) (out TraceOut) {
 				default:
 					t.cont(wpid, 0)
 				}
+			case sig == syscall.SIGTRAP && ws.TrapCause() == 7: // PTRACE_EVENT_SECCOMP: entry of a filtered call
+				if err := ptraceSyscallInfo(wpid, &info); err != nil || (info[0] != 3 && info[0] != 1) {
+					t.cont(wpid, 0)
+					break
+				}
+				var args [6]uint64
+				for i := range args {
+					args[i] = le64(info[32+8*i:])
+				}
+				th.inCall = true
+				t.onEntry(th, le64(info[24:]), args)
 			case sig == syscall.SIGTRAP:
 				// ptrace event (clone/fork/exec): the new task is attached automatically
 				t.cont(wpid, 0)
